@@ -17,7 +17,7 @@ def c16_patterns(path):
     pats = collections.OrderedDict()
     for sig in sigs:
         p = sig.split("|"); k = p[0]
-        if k == "leak" and any(x in p[2] for x in ("leaked@yara_yy", "leaked@hex_yy", "leaked@re_yy", "leaked@yr_re_ast_create<-yr_parse_re_string")):
+        if k == "leak" and any(x in p[2] for x in ("leaked@yara_yy", "leaked@hex_yy", "leaked@re_yy", "leaked@yr_re_ast_create<-yr_parse_re_string", "leaked@yr_lex_parse_rules_fd", "leaked@_yr_compiler_default_include_callback")):
             pat = "leak|*|leaked@" + two(p[2][7:]) + "*"
         elif k == "silent": pat = "silent|*|fail@" + two(p[2][5:]) + "*"
         elif k == "wrong-code": pat = "|".join(p[:3]) + "|*"
@@ -26,10 +26,10 @@ def c16_patterns(path):
     return list(pats)
 
 C16_GROUPS = [
- ("KF-C16-01", "allocation failure while the rule/hex/regex lexer is being set up or is running loses lexer state: flex buffers, the scanner object, token strings and the half-built regex AST are never freed (and re_yylex then dereferences a missing buffer)",
-  lambda p: any(x in p for x in ("leaked@yara_yy", "leaked@hex_yy", "leaked@re_yy", "leaked@yr_re_ast_create<-yr_parse_re_string", "crash|asan:SEGV@re_yylex"))),
- ("KF-C16-02", "yr_compiler_add_string returns a non-zero error count without invoking the error callback when the failing allocation hits before/outside the parser (namespace, file-name stack, lexer creation)",
-  lambda p: p.startswith("wrong-code|step=yr_compiler_add_string|rc=errors-undiagnosed")),
+ ("KF-C16-01", "allocation failure while the rule/hex/regex lexer is being set up or is running loses lexer state: flex buffers, the scanner object, token strings, the half-built regex AST, and - for yr_compiler_add_fd / include files - the buffer the file was read into are never freed (and re_yylex then dereferences a missing buffer)",
+  lambda p: any(x in p for x in ("leaked@yara_yy", "leaked@hex_yy", "leaked@re_yy", "leaked@yr_re_ast_create<-yr_parse_re_string", "crash|asan:SEGV@re_yylex", "leaked@yr_lex_parse_rules_fd", "leaked@_yr_compiler_default_include_callback"))),
+ ("KF-C16-02", "yr_compiler_add_string / add_fd / add_file return a non-zero error count without invoking the error callback when the failing allocation hits before/outside the parser (namespace, file-name stack, lexer creation)",
+  lambda p: p.startswith("wrong-code|step=yr_compiler_add_") and "|rc=errors-undiagnosed" in p),
  ("KF-C16-03", "parser dereferences NULL after a failed allocation (base64 string nodes, expression type check)",
   lambda p: "crash|asan:SEGV@_yr_modified_base64_encode" in p or "crash|asan:SEGV@yr_parser_check_types" in p),
  ("KF-C16-04", "object.c: yr_object_copy / array and dictionary insertion leak the partially built object or leave a dictionary entry with a NULL key (later NULL dereference in lookups and in any walker of the module tree)",
